@@ -43,6 +43,7 @@ import (
 	"fmt"
 	"net"
 	"net/http"
+	"sort"
 	"strconv"
 	"strings"
 	"sync"
@@ -830,8 +831,13 @@ func c11ExecTC(r *sim.Run, sc *c11TCSc) {
 				case is503 && allExist:
 					class, why = "C11.tc.unavailable-during-update", fmt.Sprintf("pipeline %s exists in every state possible during the request (an apply/update overlapped), but the request was answered as if it did not exist", name)
 				default:
-					for k, e := range exp {
-						if e == got && strings.HasSuffix(k, "/"+id) {
+					var keys []string
+					for k := range exp {
+						keys = append(keys, k)
+					}
+					sort.Strings(keys)
+					for _, k := range keys {
+						if e := exp[k]; e == got && strings.HasSuffix(k, "/"+id) {
 							class, why = "C11.tc.stale-generation", "the answer is the twin answer of "+k+" (gate version/pipeline version/request), which is outside the possible window"
 							var gvv, pvv int
 							if n, _ := fmt.Sscanf(k, "%d/%d/", &gvv, &pvv); n == 2 {
